@@ -31,9 +31,6 @@ type Rig struct {
 
 func newRig(ts TxnSchema) (*Rig, error) {
 	im := newImplDB(ts)
-	// what this database holds travels as JSON: integers a float64 cannot hold are the known finding D5,
-	// not this stream's subject
-	genBigInts = false
 	srv, err := server.NewOvsdbServer(im.d, im.db.Model)
 	if err != nil {
 		return nil, err
